@@ -26,8 +26,7 @@ func (node *simpleDocumentNode) ShallowCopy() Node {
 	value := node.Value()
 	pointer := node.Pointer()
 
-	newNode := newSimpleDocumentNode(document, tag, value, pointer)
-	document.AddNode(newNode)
-
-	return newNode
+	// The copy belongs to the same document but it is not added to it. Making
+	// a copy must not modify the document.
+	return newSimpleDocumentNode(document, tag, value, pointer)
 }
